@@ -99,7 +99,7 @@ func toIDs(xs []uint64) []sharing.ID {
 	return out
 }
 
-func idSet(xs []uint64) ds.Set[sharing.ID] {
+func c02idSet(xs []uint64) ds.Set[sharing.ID] {
 	return hashset.NewComparable(toIDs(xs)...).Freeze()
 }
 
@@ -118,13 +118,13 @@ func (n *c02Node) build() *boolexpr.Node {
 func (p *c02Policy) build() (accessstructures.Monotone, error) {
 	switch p.kind {
 	case "th":
-		ac, err := threshold.NewThresholdAccessStructure(uint(p.t), idSet(p.ids))
+		ac, err := threshold.NewThresholdAccessStructure(uint(p.t), c02idSet(p.ids))
 		if err != nil {
 			return nil, err
 		}
 		return ac, nil
 	case "un":
-		ac, err := unanimity.NewUnanimityAccessStructure(idSet(p.ids))
+		ac, err := unanimity.NewUnanimityAccessStructure(c02idSet(p.ids))
 		if err != nil {
 			return nil, err
 		}
@@ -132,7 +132,7 @@ func (p *c02Policy) build() (accessstructures.Monotone, error) {
 	case "cnf":
 		sets := make([]ds.Set[sharing.ID], len(p.sets))
 		for i, s := range p.sets {
-			sets[i] = idSet(s)
+			sets[i] = c02idSet(s)
 		}
 		ac, err := cnf.NewCNFAccessStructure(sets...)
 		if err != nil {
@@ -159,8 +159,8 @@ func (p *c02Policy) build() (accessstructures.Monotone, error) {
 	panic("bad policy kind")
 }
 
-// errClass maps a library error to the small enum shared with the model.
-func errClass(err error) string {
+// c02errClass maps a library error to the small enum shared with the model.
+func c02errClass(err error) string {
 	switch {
 	case err == nil:
 		return "ok"
@@ -209,7 +209,7 @@ func subsetOf(universe []uint64, mask int) []uint64 {
 	return out
 }
 
-func bitsStr(bs []bool) string {
+func c02bitsStr(bs []bool) string {
 	var sb strings.Builder
 	for _, b := range bs {
 		if b {
